@@ -1278,6 +1278,37 @@ def check_derivatives(rep: Report, ix) -> None:
                     v = bound.get(kw)
                     _ob(rep, "derivative-keeps-context", fi.ref, role + f"::{kw}", v is not None and dotted(v) == f"self.{kw}", f"derivative is built with {kw}=`{ast.unparse(v) if v is not None else None}` instead of `self.{kw}`", line=nd.lineno)
             rows.append({"return": cname, "depends-on-derivative": dep, "args": {p: ast.unparse(v)[:50] for p, v in bound.items()}})
+            # every value that can reach the `expression` argument is a zero array (constant branch) or the result of
+            # diff / derive_by_array (derivative index first); other constructions have another index convention
+            ex = bound.get("expression")
+            if ex is not None:
+                values = []
+                if isinstance(ex, ast.Name):
+                    for d in g.defs_reaching(nd, ex.id):
+                        v = def_value(d, ex.id)
+                        values.append((d, v[1] if v[0] == "expr" else None))
+                else:
+                    values.append((nd, ex))
+                for d, v in values:
+                    if v is None:
+                        raise _grammar(fi, d.ast, "definition of the derivative is not a plain assignment")
+                    v = resolve_expr(g, d, v) if d is not nd else v
+                    leaves = {_leaf(c.func) for c in ast.walk(v) if isinstance(c, ast.Call)}
+                    okv = bool(leaves & set(DIFF_LEAVES)) or "zeros" in leaves or (isinstance(v, ast.Constant) and v.value == 0)
+                    if not okv and "jacobian" in leaves:
+                        transposed = any(isinstance(x, ast.Attribute) and x.attr in ("T", "transpose") for x in ast.walk(v))
+                        _ob(
+                            rep,
+                            "derivative-index-order",
+                            fi.ref,
+                            f"jacobian@{cname}",
+                            transposed,
+                            f"`{ast.unparse(v)[:80]}` builds the derivative with Matrix.jacobian, whose entry [i, j] is d expr[i] / d vars[j]; the convention of this class "
+                            "(sympy.derive_by_array, the constant branch, all callers) puts the derivative index first: [i, j] = d expr[j] / d vars[i] -- the result is transposed",
+                            line=getattr(v, "lineno", nd.lineno),
+                        )
+                    elif not okv:
+                        raise _grammar(fi, v, f"derivative built by `{ast.unparse(v)[:60]}`: index convention of this construction is unknown to the rule")
         # zero derivative of a constant expression: derivative index first
         for nd, c in g.find_calls(lambda c: _leaf(c.func) == "zeros" and len(c.args) >= 1):
             tok = _shape_tokens(resolve_expr(g, nd, c.args[0]))
